@@ -201,6 +201,23 @@ def reached_only_from(db, fname, allowed, depth=4):
     """is function `fname` (qualified, template arguments stripped) called - transitively - only from functions in `allowed`?
     (a helper extracted from an allowed function is fine; an unreferenced or publicly reachable one is not)"""
     from .c04 import scan_callers
+    key = (id(db), fname, tuple(sorted(allowed)), depth)
+    if key in _ROF:
+        return _ROF[key]
+    _ROF[key] = r = _reached_only_from(db, fname, allowed, depth, scan_callers)
+    return r
+
+
+_ROF = {}
+_CALLERS = {}
+
+
+def _reached_only_from(db, fname, allowed, depth, scan_callers0):
+    def scan_callers(db_, names):
+        k = (id(db_), tuple(sorted(names)))
+        if k not in _CALLERS:
+            _CALLERS[k] = scan_callers0(db_, names)
+        return _CALLERS[k]
     seen, frontier = set(), {fname}
     for _ in range(depth):
         nxt = set()
